@@ -30,6 +30,7 @@ func checkC17(c *Ctx) {
 	ruleLedOffset(c, dv)
 	ruleLayerOrder(c, dv)
 	ruleNoNarrowTransposition(c, dv)
+	ruleConfiguredColourUnmodified(c, dv)
 	c.importRules(transportRules, []string{"R15.3"}, "R17.8") // MIDI-input messages reach every connected device (fan-out ids, delivery loop)
 	c.MinCount("R17.7", 8)
 	c.MinCount("R17.1", 4)
@@ -38,6 +39,7 @@ func checkC17(c *Ctx) {
 	c.MinCount("R17.5", 5)
 	c.MinCount("R17.6", 1)
 	c.MinCount("R17.10", 1)
+	c.MinCount("R17.11", 1)
 	c.DecidedClause("MIDI-input tracking lights a key only for a Note On with non-zero velocity and clears it for Note Off and for Note On with velocity 0, under the tracker mutex; no LED slot is written through a failed map lookup; after the refresh loop every LED is set to red and the frame is sent; panic replaces the external highlight map; the whole frame is computed and sent inside one critical section of the event mutex (external notes under their own mutex); the LED transposition offset is the same affine int form 12*octave+semitone as in NoteOn, and no value computed from it is narrowed to 8 bits unless guards bound it to the narrow type's range")
 	c.UndecidedClause("the colour function itself (which colour each LED shows for each reachable state and LED layout): a 170-line value-level function of the device state; deciding it means evaluating it, which is testing, not static analysis")
 	c.Assumption("len(dev.Colors) == len(dev.LEDs) (OpenRGB protocol)")
@@ -1205,5 +1207,94 @@ func ruleNoNarrowTransposition(c *Ctx, dv *dev) {
 					fmt.Sprintf("`%s` is computed from octave/semitone (an unbounded int) and converted to an 8-bit type without being bounded to %d..%d (%s): from |offset| >= 129 on it wraps, and a pitch that is on no key lights the key whose note it aliases", t, lo, hi, why))
 			}
 		}
+	}
+}
+
+// ruleConfiguredColourUnmodified: R17.11. A key shows its pitch-class colour: the configured C / black / white value. The
+// refresh loop may hand that value to a transformation (the hue shift `shiftColor`) only under a condition that the shift
+// is not zero: the RGB -> HSV -> RGB round trip truncates, and with nothing to shift about half of all colours came back
+// one lower in a component (and any change inside the transformation changed every key colour).
+func ruleConfiguredColourUnmodified(c *Ctx, dv *dev) {
+	root := dv.fn["handleOpenrgb"]
+	var fns []*ssa.Function
+	var collect func(f *ssa.Function)
+	collect = func(f *ssa.Function) {
+		fns = append(fns, f)
+		for _, af := range f.AnonFuncs {
+			collect(af)
+		}
+	}
+	collect(root)
+	for h := range dv.newHelpers() {
+		collect(h)
+	}
+	n := 0
+	for _, fn := range fns {
+		vw := NewFnView(c.P, fn)
+		for _, b := range fn.Blocks {
+			for _, in := range b.Instrs {
+				call, ok := in.(*ssa.Call)
+				if !ok {
+					continue
+				}
+				callee := call.Call.StaticCallee()
+				if callee == nil || !c.P.OwnedFunc(callee) || callee.Signature.Results().Len() != 1 {
+					continue
+				}
+				if n, isN := callee.Signature.Results().At(0).Type().(*types.Named); !isN || n.Obj().Name() != "Color" {
+					continue
+				}
+				// a configured pitch-class colour among the arguments
+				isPitch := false
+				var shiftArgs []*Term
+				for _, a := range call.Call.Args {
+					t := vw.Term(a)
+					ts := t.String()
+					if strings.Contains(ts, ".Colors.C") || strings.Contains(ts, ".Colors.Black") || strings.Contains(ts, ".Colors.White") {
+						isPitch = true
+					}
+					if bt, isB := a.Type().Underlying().(*types.Basic); isB && bt.Info()&types.IsFloat != 0 {
+						shiftArgs = append(shiftArgs, t)
+					}
+				}
+				if !isPitch {
+					continue
+				}
+				n++
+				key := fmt.Sprintf("%s/%s(pitch-class colour)", shortFn(fn), callee.Name())
+				guarded := false
+				for _, a := range vw.GuardsAt(b) {
+					if k, isK := a.Cond.IsConst(); isK && k.Kind() == constant.Bool && constant.BoolVal(k) != a.Taken {
+						guarded = true // `if shift != 0` with the shift still the constant 0: the call is not reachable
+						continue
+					}
+					op, l, r, okA := normAtom(a)
+					if !okA {
+						continue
+					}
+					if _, isK := l.IsConst(); isK {
+						l, r = r, l
+					}
+					k, isK := r.IsConst()
+					if !isK || op == "==" {
+						continue
+					}
+					f, _ := constant.Float64Val(constant.ToFloat(k))
+					if f != 0 {
+						continue
+					}
+					for _, sa := range shiftArgs {
+						if strings.Contains(sa.String(), l.String()) {
+							guarded = true
+						}
+					}
+				}
+				c.Check(guarded, "R17.11", key, c.P.Pos(call.Pos()), "the configured colour is transformed only when the shift is not zero",
+					"the configured pitch-class colour is passed through "+callee.Name()+" unconditionally (the shift is 0 unless stated otherwise): the transformation's float round trip does not return the colour it was given - the key does not show its configured colour")
+			}
+		}
+	}
+	if n == 0 {
+		c.OK("R17.11", "device.handleOpenrgb/pitch-class colour stored as configured", c.P.Pos(root.Pos()), "no transformation is applied to the configured pitch-class colours")
 	}
 }
